@@ -7,6 +7,8 @@ import (
 	"os"
 	"runtime"
 	"time"
+
+	"github.com/rqlite/rqlite/v10/internal/vhook"
 )
 
 const (
@@ -127,6 +129,7 @@ func WriteToFile(p *Plan, path string) error {
 	if err := syncFileMaybe(tmpPath); err != nil {
 		return err
 	}
+	vhook.Point("plan.write.before_rename")
 	return os.Rename(tmpPath, path)
 }
 
@@ -251,6 +254,7 @@ type Inspector interface {
 func (p *Plan) Execute(v Visitor) error {
 	for _, op := range p.Ops {
 		var err error
+		vhook.Point("plan.op.before")
 		switch op.Type {
 		case OpRename:
 			err = v.Rename(op.Src, op.Dst)
@@ -276,6 +280,7 @@ func (p *Plan) Execute(v Visitor) error {
 		if err != nil {
 			return err
 		}
+		vhook.Point("plan.op.after")
 	}
 	return nil
 }
